@@ -470,6 +470,13 @@ Definition eqv (lft rgt : vcell) : M bool :=
     | _, _ => ret false
     end.
 
+(* the element loop of compare_vector (compare.rs:117-121): stops at the first difference *)
+Fixpoint all2_m (p : vcell -> vcell -> M bool) (xs ys : list vcell) : M bool :=
+  match xs, ys with
+  | x :: xr, y :: yr => dom e <- p x y; if e then all2_m p xr yr else ret false
+  | _, _ => ret true
+  end.
+
 (* Vm::equal / compare_pair / compare_vector, compare.rs:60-123 (after the fix of the
    final-cdr comparison).  The recursion follows the data: no termination on circular
    structures, hence the fuel. *)
@@ -487,14 +494,7 @@ Fixpoint equal (f : nat) (lft rgt : vcell) {struct f} : M bool :=
         | VVec a, VVec b =>
             dom la <- vec_get a; dom lb <- vec_get b;
             if negb (len la =? len lb) then ret false
-            else
-              (fix elems (xs ys : list vcell) : M bool :=
-                 match xs, ys with
-                 | x :: xr, y :: yr =>
-                     dom e <- equal f' x y;
-                     if e then elems xr yr else ret false
-                 | _, _ => ret true
-                 end) la lb
+            else all2_m (equal f') la lb
         | VStr a, VStr b => dom ta <- str_get a; dom tb <- str_get b; ret (text_eqb ta tb)
         | _, _ => eqv l r
         end
